@@ -73,7 +73,7 @@ def run_graph(nodes, triplets, method, **kw):
 NODE_CONTAINERS = ["list", "tuple", "ndarray", "series", "series_perm", "series_shift", "series_str"]
 
 
-def triplets_from_edges(edges, rng, as_array, orient="both"):
+def triplets_from_edges(edges, rng, as_array, orient="both", selfloops=0):
     """neighbour lists as the search functions produce them: both orientations (symdel, hash_based, kdtree) or, with
     max_returns, possibly one orientation only - in either order"""
     t = []
@@ -84,6 +84,8 @@ def triplets_from_edges(edges, rng, as_array, orient="both"):
             t.append((i - 1, j - 1, d))
         if o in ("both", "ji"):
             t.append((j - 1, i - 1, d))
+    if selfloops:
+        t.extend((i, i, 0) for i in range(selfloops))          # a node is not its own neighbour: self-pairs connect nothing
     rng.shuffle(t)
     return np.array(t) if (as_array and t) else t
 
@@ -92,7 +94,7 @@ def replay_cc(ctx, doc, k):
     n, edges = doc["n"], doc["edges"]
     nodes = [["CASSF", "CASSY", "CASSF", "CAWF", "CATTF"][i % 5] + ("" if k % 2 else str(i)) for i in range(n)]     # duplicates allowed
     orient = ("both", "ji", "mixed", "ij")[k % 4]
-    trip = triplets_from_edges(edges, ctx.rng, k % 3 == 0, orient)
+    trip = triplets_from_edges(edges, ctx.rng, k % 3 == 0, orient, selfloops=(n if (k // 7) % 3 == 1 else 0))
     want = partition_of([(i, doc["label"][i - 1]) for i in doc["reported"]])
     rp = dict(kind="replay", doc=doc, k=k)
     ctx.case(dict(fn="graph_clustering/cc", n=n, edges=edges), nontrivial=len(edges) > 0 and len(doc["reported"]) < n)
